@@ -9,7 +9,7 @@ python3 - "$OUT" <<'PY'
 import json,re,sys
 out=open(sys.argv[1]).read()
 passed=set()
-for m in re.finditer(r'^\s+PASS \[[^\]]*\]\s+\([^)]*\)\s+(\S+)\s+(\S+)\s*$', out, re.M):
+for m in re.finditer(r'^\s+(?:PASS|LEAK) \[[^\]]*\]\s+\([^)]*\)\s+(\S+)\s+(\S+)\s*$', out, re.M):
     passed.add(m.group(1)+'::'+m.group(2))
 base=json.load(open('/root/.vp/BASELINE.json'))['stable_pass']
 def ok(t):
